@@ -1,10 +1,38 @@
 package checks
 
 import (
+	math "github.com/IBM/mathlib"
+
+	"github.com/IBM/TSS/mpc/ps"
 	tss "github.com/IBM/TSS/types"
 )
 
+// PSCurve is the curve the integration tests of the repository use for PS.
+var PSCurve = math.Curves[1]
+
 // extraBackend builds factories for the backends other than scripted and bls.
 func extraBackend(d *Deployment, id uint16, name string) (tss.KeyGenFactory, tss.SignerFactory) {
+	switch name {
+	case "ps":
+		msgLen := d.Cfg.PSMsgLen
+		if msgLen == 0 {
+			msgLen = 2
+		}
+		kgf := func(fid uint16) tss.KeyGenerator {
+			b := &ps.TPS{Logger: d.Log, Party: fid, Curve: PSCurve, MessageLength: msgLen}
+			if d.WrapKG != nil {
+				return d.WrapKG(id, b)
+			}
+			return b
+		}
+		sf := func(fid uint16) tss.Signer {
+			b := &ps.TPS{Logger: d.Log, Party: fid, Curve: PSCurve, MessageLength: msgLen}
+			if d.WrapSG != nil {
+				return d.WrapSG(id, b)
+			}
+			return b
+		}
+		return kgf, sf
+	}
 	panic("unknown backend " + name)
 }
